@@ -718,6 +718,18 @@ func (t *Topic) handleLeaveRequest(msg *ClientComMessage, sess *Session) {
 	}
 
 	// User wants to leave without unsubscribing.
+	if msg.init {
+		// The topic must be addressed the way the session is attached to it (as a channel or not). Check before
+		// the session is detached: a refused request changes nothing.
+		s := sess
+		if sess.multi != nil {
+			s = sess.multi
+		}
+		if pssd, ok := t.sessions[s]; ok && pssd.isChanSub != asChan {
+			sess.queueOut(ErrNotFoundReply(msg, now))
+			return
+		}
+	}
 	if pssd, _ := t.remSession(sess, asUid); pssd != nil {
 		if !sess.isProxy() {
 			sess.delSub(t.name)
